@@ -107,3 +107,20 @@ package har
 //@   at call 0 of append after set curr.gpos = len(arg0)
 //@   at call 0 of append after assert[covered-after-append] forall e *Entry :: inLog(l, e) && e.arr <= curr.arr ==> 0 <= e.gpos && e.gpos < len(result) && result[e.gpos] == e
 //@   at call 0 of makeHAR after assert[exported-list-is-the-collected-list] result.Log.Entries == es
+
+// ---------------------------------------------------------------------------------------------
+// C15: the HAR logger skips exchanges marked skip-logging: the log and the message are untouched.
+//@ func (*Logger).ModifyRequest
+//@   serves C15
+//@   requires harInv(l) && !l.mu.held && l.postDataLogging != nil && req != nil && linked(req)
+//@   modifies l.entries[*], l.tail, Entry.next, Entry.arr, harClock, l.mu.held, http.Request.Body, martian.ctxmu.rheld, sync.RWMutex.rheld
+//@   noframe
+//@   ensures[skip-logging-leaves-log-and-message-untouched] skipMarked(req) ==> result == nil && req.Body == old(req.Body) && l.tail == old(l.tail) &&
+//@        (forall k string :: has(l.entries, k) == old(has(l.entries, k)) && l.entries[k] == old(l.entries[k]))
+//@ func (*Logger).ModifyResponse
+//@   serves C15
+//@   requires harInv(l) && !l.mu.held && l.bodyLogging != nil && res != nil && linked(res.Request)
+//@   modifies Entry.Response, Entry.Time, l.mu.held, http.Response.Body, martian.ctxmu.rheld, sync.RWMutex.rheld
+//@   noframe
+//@   ensures[skip-logging-leaves-log-and-message-untouched] skipMarked(res.Request) ==> result == nil && res.Body == old(res.Body) &&
+//@        (forall e *Entry :: e.Response == old(e.Response) && e.Time == old(e.Time))
